@@ -34,6 +34,7 @@ type c37Anchors struct {
 	running, connected    string
 	counterFuncs          map[string]bool // names of the (type-resolved) callees that change a status counter
 	sessionID             string          // full name of the method giving the connection id of a context's session
+	ctxPid                string          // full name of the method giving the pid of a context's query (identity of the query a call is about)
 	pairs                 []c37Pair
 	musts                 []c37Must
 	q2Exceptions          map[string]string
@@ -48,6 +49,7 @@ func c37Real() c37Anchors {
 		running: "Threads_running", connected: "Threads_connected",
 		counterFuncs: map[string]bool{"IncrementGlobal": true, "SetGlobal": true, "IncrementStatusVariable": true},
 		sessionID:    sq + "Session.ID",
+		ctxPid:       sq + "Context.Pid",
 		pairs: []c37Pair{
 			{Name: "BeginQuery/EndQuery", Kind: "ctx", Begin: []string{sq + "ProcessList.BeginQuery", modPath + ".ProcessList.BeginQuery"}, End: []string{sq + "ProcessList.EndQuery", modPath + ".ProcessList.EndQuery"}},
 			{Name: "BeginOperation/EndOperation", Kind: "ctx", Begin: []string{sq + "ProcessList.BeginOperation", modPath + ".ProcessList.BeginOperation"}, End: []string{sq + "ProcessList.EndOperation", modPath + ".ProcessList.EndOperation"}},
@@ -63,7 +65,7 @@ func c37Real() c37Anchors {
 		q2Exceptions: map[string]string{
 			"ProcessList.ConnectionReady/Threads_connected": "replaces the entry AddConnection inserted under the same connection id (authenticated user/database); not a new connection, so no increment",
 		},
-		floors: map[string]int{"C37-Q1": 18, "C37-Q1b": 4, "C37-Q2": 6, "C37-Q2w": 10, "C37-Q3a": 2, "C37-Q3b": 4, "C37-Q3c": 4, "C37-Q4": 50, "C37-Q4x": 15, "C37-Q4e": 13},
+		floors: map[string]int{"C37-Q1": 18, "C37-Q1b": 4, "C37-Q2": 6, "C37-Q2w": 10, "C37-Q3a": 2, "C37-Q3b": 4, "C37-Q3c": 4, "C37-Q3d": 1, "C37-Q3e": 2, "C37-Q3f": 14, "C37-Q4": 50, "C37-Q4x": 15, "C37-Q4e": 13},
 	}
 }
 
@@ -79,11 +81,20 @@ func init() {
 			"is necessarily miscounted); Threads_connected: #increments = #insertions into procs, #decrements = #deletions; (Q2w) the two counters, Process.QueryPid and Process.Kill are written " +
 			"only inside ProcessList methods. (Q3a) a path that clears QueryPid also clears Kill and deletes the byQueryPid entry, a path that deletes from procs also deletes from byQueryPid; (Q3b) every " +
 			"invocation of a stored cancel function addresses exactly one process: the receiver is procs[k] with k the method's connection-id parameter or the id of the context's own session, never " +
-			"inside a loop over procs; (Q3c) every store to Process.Kill is nil or a cancel function created in the same call. (Q4) guarded-by: procs, byQueryPid and every field of a *Process " +
+			"inside a loop over procs; (Q3c) every store to Process.Kill is nil or a cancel function created in the same call. " +
+			"Identity (the pid of a call's own query is read from the code: Context.Pid() of a parameter, a variable whose only definition is that call, or a never-assigned parameter of QueryPid's type): " +
+			"(Q3d) in every method that ends a query while keeping the process (it stores QueryPid = 0), each store to a field of the process, each invocation of its stored cancel and each decrement of " +
+			"Threads_running is reachable from the method's entry only through an edge on which `thatProcess.QueryPid == own pid` holds (true edge of ==, false edge of !=, read through &&, || and !): " +
+			"a late End of an earlier query must not deregister, cancel or un-count the connection's current query; (Q3e) every delete(byQueryPid, k) has k = own pid, or k = P.QueryPid with P the process " +
+			"deleted from procs in the same call or with P.QueryPid tested equal to the own pid; (Q3f) every procs[k] / delete(procs, k) in a ProcessList method has k = the never-assigned connection-id " +
+			"parameter, Session.ID() of a parameter (directly or through a single-definition variable), or a single-definition variable read from byQueryPid[own pid] — KILL and the by-pid progress entry " +
+			"points reach exactly the requested connection / the connection registered for the requested pid. (Q4) guarded-by: procs, byQueryPid and every field of a *Process " +
 			"reached from procs are accessed only with ProcessList.mu held (writes exclusively), every function that takes mu releases it on every exit, and no *Process pointer escapes the " +
 			"ProcessList methods (Q4e). Each violated clause makes the list or a counter disagree with the set of connected sessions / running queries, or lets a cancel hit the wrong query.",
-		NotCovered: "interleavings/linearizability across methods, what callers do between Begin and End, ConnectionReady being invoked while a query runs, kill of a query through context propagation in the executor",
-		Technique:  "stateful CFG path exploration (pairing with error-edge pruning; saturating event counters with branch facts) + who-may-write + guarded-by dataflow",
+		NotCovered: "interleavings/linearizability across methods, what callers do between Begin and End, ConnectionReady being invoked while a query runs, kill of a query through context propagation in the executor; " +
+			"Q3d–Q3f: effects placed in function literals / deferred closures or in helper functions called from the method (none today), a process reached through anything but a variable or a call-free expression, " +
+			"BeginQuery on a connection whose previous query has not ended yet (the older query's cancel and its byQueryPid entry are overwritten/kept: inter-method state, not decided)",
+		Technique:  "stateful CFG path exploration (pairing with error-edge pruning; saturating event counters with branch facts) + who-may-write + guarded-by dataflow + CFG reachability with the pid-equality edges removed (control dependence on the identity test) + single-definition def-use of map keys",
 		Run: func(c *Ctx) {
 			a := c37Real()
 			a.guardedBy = func(c *Ctx) {
@@ -101,7 +112,7 @@ func init() {
 				pp := "vchk/" + rel
 				return c37Anchors{plRel: rel, plType: "ProcessList", procRel: rel, procType: "Process", procsField: "procs", byPid: "byQueryPid",
 					running: "Threads_running", connected: "Threads_connected", counterFuncs: map[string]bool{"IncrementGlobal": true},
-					sessionID: pp + ".Session.ID",
+					sessionID: pp + ".Session.ID", ctxPid: pp + ".Context.Pid",
 					pairs: []c37Pair{
 						{Name: "BeginQuery/EndQuery", Kind: "ctx", Begin: []string{pp + ".ProcessList.BeginQuery"}, End: []string{pp + ".ProcessList.EndQuery"}},
 						{Name: "CommandBegin/CommandEnd", Kind: "arg", Begin: []string{pp + ".CommandBegin"}, End: []string{pp + ".CommandEnd"}},
@@ -111,7 +122,7 @@ func init() {
 				}
 			}
 			expectFixture(c, fx, "c37 good: reference process list accepted", nil, func(fc *Ctx) { runC37(fc, fa("testdata/c37/good")) })
-			expectFixture(c, fx, "c37 bad: counter before error return, removal without decrement, End missing on one path, cancel in a loop, stale Kill, foreign counter writer",
+			expectFixture(c, fx, "c37 bad: counter before error return, removal without decrement, End missing on one path, cancel in a loop, stale Kill, foreign counter writer, End of any query, foreign byQueryPid entry removed, by-pid access not through byQueryPid",
 				[]string{
 					"C37-Q1:handleBad/BeginQuery/EndQuery",
 					"C37-Q1:handleBad2/CommandBegin/CommandEnd",
@@ -123,6 +134,9 @@ func init() {
 					"C37-Q3a:ProcessList.EndQuery/clears",
 					"C37-Q3b:ProcessList.KillAll/cancel",
 					"C37-Q3c:ProcessList.Reuse/Kill=",
+					"C37-Q3d:ProcessList.EndAny/own-query-only",
+					"C37-Q3e:ProcessList.EndKeyed/delete(byQueryPid)",
+					"C37-Q3f:ProcessList.Touch/procs[]",
 				},
 				func(fc *Ctx) { runC37(fc, fa("testdata/c37/bad")) })
 		},
@@ -139,6 +153,9 @@ func runC37(c *Ctx, a c37Anchors) {
 	c.Rule("C37-Q3a", "clearing QueryPid also clears Kill and the byQueryPid entry; deleting from procs also deletes from byQueryPid", fl("C37-Q3a"))
 	c.Rule("C37-Q3b", "a stored cancel is invoked only on procs[k], k = connection-id parameter or the context's own session id, never in a loop over procs", fl("C37-Q3b"))
 	c.Rule("C37-Q3c", "every store to Process.Kill is nil or a cancel function created in the same call", fl("C37-Q3c"))
+	c.Rule("C37-Q3d", "a method that ends a query (clears QueryPid) touches the process (field stores, stored cancel) and decrements Threads_running only after `process.QueryPid == pid of the context's query` succeeded", fl("C37-Q3d"))
+	c.Rule("C37-Q3e", "every deletion from byQueryPid is keyed by the call's own pid, or by the QueryPid of the process removed from procs in the same call / tested equal to the own pid", fl("C37-Q3e"))
+	c.Rule("C37-Q3f", "every procs[k] access in a ProcessList method is keyed by the connection-id parameter, the session id of a parameter, or byQueryPid[own pid]", fl("C37-Q3f"))
 	if a.guardedBy != nil {
 		c.Rule("C37-Q4", "guarded-by: ProcessList.procs/byQueryPid and *Process fields only under ProcessList.mu (writes exclusive)", fl("C37-Q4"))
 		c.Rule("C37-Q4c", "call sites of caller-holds-the-lock helpers of ProcessList hold mu", 0)
@@ -175,6 +192,7 @@ func runC37(c *Ctx, a c37Anchors) {
 	s.counters()
 	s.whoWrites(pkgs)
 	s.cancels()
+	s.identity()
 	if a.guardedBy != nil {
 		a.guardedBy(c)
 		s.escapes()
